@@ -241,7 +241,8 @@ def signature(case, trace, bit):
 
 
 def describe(case, trace):
-    lines = ["%r[%s]" % (ln["concrete"], ln["sit"]) for blk in case["blocks"] for ln in blk["lines"]]
+    lines = ["%r[%s%s]" % (ln["concrete"], ln["sit"], ", %d frames" % ln["frames"] if ln.get("frames") else "")
+             for blk in case["blocks"] for ln in blk["lines"]]
     got = [["".join(it["c"]) if it["k"] == "S" else "<SP>" for it in ln["items"]] for blk in trace["obs"]["blocks"] for ln in blk["lines"]]
     return "page %dx%d, block rects %s, lines %s, min_line_confidence %.2f -> outcome %s, exported %s, print space %s" % (
         case["W"], case["H"], [blk["rect"] for blk in case["blocks"]], lines, case["minconf"] / 1e6, trace["outcome"], got,
@@ -346,6 +347,18 @@ def alto_part(ctx, pending):
                                 return tr
                     return tr
                 ctx.selftest_corrupt("AltoExport_Trace", traces[good[0]], corrupt, constants=TRACE_CONSTS)
+    # scale: lines recognised from very wide crops - more than 1000 frames of posteriors, the characters spread over all of them
+    # (sampled; the page machine of AltoExport does not depend on the number of frames, the trace layer judges them like any
+    # alignable peaky line)
+    texts = ["ab ab a", "a", "ba", "a b", "ab  ba", "b a b a b"]
+    long_cases = [{"W": 120, "H": 120, "minconf": mc, "cfg": "long-lines",
+                   "blocks": [{"rect": [0, 0, 120, 120], "lines": [{"concrete": t, "sit": "peaky", "frames": fr}]}]}
+                  for fr in ((1001, 1100, 1500, 2500, 4100) if ctx.tier == "quick" else (1001, 1100, 1300, 1500, 2000, 2500, 4100, 9000, 33000))
+                  for t in texts for mc in (0, 500000)]
+    ltraces = [_alto_one(c) for c in long_cases]
+    for c in long_cases:
+        ctx.count(1, ("long", c["blocks"][0]["lines"][0]["frames"], c["blocks"][0]["lines"][0]["concrete"], c["minconf"]))
+    alto_judge(ctx, long_cases, ltraces, "long lines (> 1000 frames)", pending)
     # Legacy self-tests: each defect of the original tree must be visible to TLC on the smallest suitable family
     small_line = dict(cfgs[0], Mode="line", Classes=["a", "s", "w"], MaxLen=3, Situations=["peaky", "nochars", "nologits"],
                       MaxBlocks=1, MaxLines=1, minconfs=[0], GridW=3, GridH=3)
